@@ -43,7 +43,7 @@ static Tab cubeTab(const std::string& s, int v, int d) { int V = (int)s.size(); 
 struct World {
   std::map<std::pair<int, Tab>, std::unique_ptr<M>> canon;
   void check(Ctx& c, const M& r, const Tab& expect, int V, const std::string& sub, const std::string& what) {
-    Tab got = table(r, V);
+    Tab got = table(r, V); verif::obs(tstr(got));
     if (got != expect) { c.viol(sub, "wrong_value_for_some_assignment", {}, what + " expected table " + tstr(expect) + " got " + tstr(got)); return; }
     auto& slot = canon[{V, expect}];
     if (!slot) slot.reset(new M(r)); else if (!(*slot == r) || (*slot != r)) c.viol(sub, "two_diagrams_for_one_function", {}, what + " table " + tstr(expect) + ": operator== is false for two diagrams denoting the same function");
